@@ -56,6 +56,11 @@ type XNode struct {
 	DefaultVal []string // DefaultValues()
 	// Origin describes how the node got here, for non-triviality rules.
 	CopySteps int
+	// Src is the (sub)module whose text contains the node's statement;
+	// ViaUses/ViaAug say whether a uses expansion or an augment placed it.
+	Src     string
+	ViaUses bool
+	ViaAug  bool
 }
 
 var intKinds = map[string]numref.Iv{}
